@@ -116,6 +116,20 @@ class Ent:
             out += labels_of(self.rd[0])
         return out
 
+    def names(self):
+        out = [self.name]
+        if self.kind == "p":
+            out.append(self.rd[0])
+        elif self.kind == "s":
+            out.append(self.rd[3])
+        elif self.kind == "n":
+            out.append(self.rd[0])
+        return out
+
+    def max_wire_len(self):
+        """octets of the longest name written without compression (length bytes + label bytes + root): RFC 1035 allows 255"""
+        return max(sum(len(l) + 1 for l in labels_of(n)) + 1 for n in self.names())
+
     def uncompressed_size(self):
         def nlen(n):
             return sum(len(l) + 1 for l in labels_of(n)) + 1
@@ -235,6 +249,9 @@ class GenMsg:
     def max_label(self):
         return max((len(l) for e in self.entries() for l in e.labels()), default=0)
 
+    def max_wire_len(self):
+        return max((e.max_wire_len() for e in self.entries()), default=0)
+
     def describe(self):
         return {"flags": self.flags, "id": self.id, "multicast": self.multicast, "line": self.tok()}
 
@@ -349,6 +366,13 @@ class Gen:
             return r.choice(self.types)
         return n
 
+    def rdname(self):
+        """a name inside rdata; the malformed stream also uses the root name '.', which the builder writes as 00 00
+        (outside the quantifier: 'no empty labels'; byte-exact differential only)"""
+        if self.malformed and self.rng.random() < 0.15:
+            return "."
+        return self.name()
+
     def long_name(self):
         """a name close to the 253-character limit"""
         r = self.rng
@@ -366,7 +390,8 @@ class Gen:
         return self.rng.choice([0, 1, 2, 120, 4500, 4500, 120, 2**32 - 1, self.rng.randint(0, 2**32 - 1), 1125])
 
     def cls(self):
-        return self.rng.choice([1, 1, 1, 255, 3])
+        # 256 / 0x0101 / 0x7FFF: classes above 255, which a narrower class mask would lose
+        return self.rng.choice([1, 1, 1, 1, 255, 3, 256, 0x0101, 0x7FFF])
 
     def record(self, kind=None, txt_len=None):
         r = self.rng
@@ -380,17 +405,17 @@ class Gen:
                 return Ent("a", name, 1, self.cls(), unique, ttl, created, 0, (bytes(r.randrange(256) for _ in range(4)),))
             return Ent("a", name, 28, self.cls(), unique, ttl, created, 0, (bytes(r.randrange(256) for _ in range(16)),))
         if kind == "p":
-            return Ent("p", name, r.choice([12, 12, 12, 5]), self.cls(), unique, ttl, created, 0, (self.name(),))
+            return Ent("p", name, r.choice([12, 12, 12, 5]), self.cls(), unique, ttl, created, 0, (self.rdname(),))
         if kind == "t":
             n = txt_len if txt_len is not None else r.choice([0, 1, 5, 20, 100, 255, 256, 600, r.randint(0, 1500)])
             return Ent("t", name, 16, self.cls(), unique, ttl, created, 0, (bytes(r.randrange(256) for _ in range(n)),))
         if kind == "s":
             port = r.choice([0, 80, 127, 128, 65535, r.randint(0, 65535)])
-            return Ent("s", name, 33, self.cls(), unique, ttl, created, 0, (r.choice([0, 1, 65535]), r.choice([0, 7]), port, r.choice(self.hosts + [name])))
+            return Ent("s", name, 33, self.cls(), unique, ttl, created, 0, (r.choice([0, 1, 65535]), r.choice([0, 7]), port, r.choice(self.hosts + [name, self.rdname()])))
         if kind == "h":
             mx = 300 if self.malformed else 255
             cpu = r.choice(["", "cpu", "é" * 20, "c" * r.choice([254, 255, mx])])
-            os_ = r.choice(["", "os", "o" * r.choice([1, 255, mx])])
+            os_ = r.choice(["", "os", "ö" * 20, "日本語", "o" * r.choice([1, 255, mx])])
             return Ent("h", name, 13, self.cls(), unique, ttl, created, 0, (cpu, os_))
         types = sorted(set(r.sample(range(1, 256), r.randint(1, 6)))) if r.random() < 0.7 else [1, 28]
         if self.malformed and r.random() < 0.3:
@@ -404,7 +429,8 @@ class Gen:
     def message(self, size_class=None):
         r = self.rng
         query = r.random() < 0.4
-        flags = r.choice([0, 0x0400]) if query else r.choice([0x8400, 0x8000])
+        # a TC bit given by the caller (0x0200) is transmitted as given
+        flags = r.choice([0, 0, 0x0400, 0x0200]) if query else r.choice([0x8400, 0x8400, 0x8000, 0x8600])
         multicast = r.random() < 0.7
         mid = r.choice([0, 1, 0xFFFF, r.randint(0, 0xFFFF)])
         sc = size_class or r.choice(["tiny", "small", "small", "medium", "large", "oversize-entry"])
@@ -419,7 +445,7 @@ class Gen:
         elif sc == "medium":
             nq, nan, nau, nad = count(40), count(60), count(10), count(60)
         elif sc == "large":
-            nq, nan, nau, nad = count(300), count(400), count(40), count(300)
+            nq, nan, nau, nad = count(300), count(400), count(300), count(300)
         else:
             nq, nan, nau, nad = count(2), count(3), count(1), count(3)
         qs = [self.question() for _ in range(nq)]
@@ -430,7 +456,7 @@ class Gen:
                 a.now = a.created + r.choice([0, 1, 999, 1000, 1001, 500 * a.ttl, 1000 * a.ttl - 1, 1000 * a.ttl, 1000 * a.ttl + 1, r.randint(0, 5_000_000)])
                 if a.now == 0:
                     a.now = 1
-        au = [self.record(kind=r.choice("ppps")) for _ in range(nau)]
+        au = [self.record(kind=r.choice("ppps") if r.random() < 0.5 else None) for _ in range(nau)]
         ad = [self.record() for _ in range(nad)]
         if sc == "oversize-entry" or r.random() < 0.15:
             # one big TXT: the single entry allowed over 1460, and the 8966 boundary
